@@ -275,6 +275,9 @@ class Discharger:
         if not holders:
             return None, "census", "%s!() outside a match arm in %s" % (mac, fn)
         mt, arm = holders[min(s["ord"], len(holders)) - 1]
+        if f.key == c13.update_fn(self.f).key and mac == "unreachable":
+            # whichever way the refusing arm is written (catch-all, or the refused variants spelled out)
+            return self.variant_cover_update(f)
         if mac in ("todo", "unimplemented"):
             return False, "variant-cover", "%s!() is reachable: arm `%s` of %s" % (mac, psrc(arm["pat"]), fn)
         # -- set-cover: closure `|c| match c { 'a' => .., _ => unreachable!() }` applied to one_of/take_while set
@@ -425,8 +428,10 @@ class Discharger:
         return ok, "set-cover", "scrutinee is a token accepted by one_of(%s); arms cover %s" % ([sorted(x) for x in found], sorted(have))
 
     def variant_cover_update(self, f):
-        arms = c13.update_arms(f) or []
-        handled = {v for v, p, body, arm in arms if v and not c13.panics(body)}
+        utab = c13.update_table(self.f, f) or {}
+        handled = {v for v, ent in utab.items() if ent[0] != "panic"}
+        if not utab:
+            return None, "variant-cover", "update() could not be interpreted path by path"
         tokfn = self.an.role("token")
         built = {}
         for a in kw.alternatives(self.g, tokfn):
@@ -752,8 +757,12 @@ class Discharger:
             if body is None and fb["t"] == "fnbody" and not fb["steps"] and not fb["unknown"] and fb["tail"] is not None:
                 body = A.unwrap(fb["tail"])
             why = "no verify guard around the alternatives of %s" % pk
-            if not rx.self_payload(self.f, "Size", f, op["lhs"]):
-                why = "the left operand `%s` is not the count carried by self" % src(op["lhs"])
+            from . import c19
+
+            sem_ok, sem_det = c19.byte_size_semantic(self.f)
+            unit_name = unit_name or ("mult" if sem_ok else None)
+            if not sem_ok:
+                why = "byte_size is not count × unit of self: %s" % sem_det
             elif body is not None and body["t"] == "verify" and unit_name and op["op"] == "*":
                 live = [A.unwrap(a) for a in A.flat_alts(body["p"]) if not c05.never_succeeds(self.g, a)]
                 okg, why = size_guard(body["f"], unit_name, self.f)
